@@ -1110,3 +1110,71 @@ def multi_conn_step(subs, c):
 def vlib_infra(msg):
     import vlib
     return vlib.Infra(msg)
+
+
+C17_OPS = {"QD": 3, "QB": 3, "QU": 3, "QP": 3, "QDEL": 3, "CONS": 3, "GET": 3}
+
+
+def monitor_c17(se, stats):
+    """Exclusive access and isolation: an operation that names an exclusive queue through a connection that does not own
+    it gets RESOURCE_LOCKED (a second consumer beside / as an exclusive one ACCESS_REFUSED) and changes nothing; an
+    operation addressed to one queue leaves the waiting and the unsettled messages of every other queue as they were."""
+    viol = []
+    prev = None
+    for i, st in enumerate(se["steps"]):
+        if st["snap"] == ["WEDGED"]:
+            break
+        cur = parse_snap(st["snap"])
+        f = st["op"].split()
+        if prev is not None and f[0] in C17_OPS and "WEDGED" not in (st.get("note") or ""):
+            c, h = int(f[1]), int(f[2])
+            qn = de(f[3])
+            q = prev["queues"].get(qn)
+            pch = prev["chans"].get((c, h))
+            fr = frames_of(st)
+            closes = [(x[0], x[1], x[2], [int(a) for a in x[3]]) for x in fr if x[2] in ("channel.close", "connection.close")]
+            usable = pch is not None and pch["st"] == 1
+            if q is not None and q["active"] and usable:
+                foreign = q["excl"] and q["owner"] != c
+                exp = expected_refusal(st["op"], prev)
+                if foreign:
+                    stats["foreign_ops_on_exclusive"] = stats.get("foreign_ops_on_exclusive", 0) + 1
+                    stats.setdefault("foreign_kinds", {})
+                    stats["foreign_kinds"][f[0]] = stats["foreign_kinds"].get(f[0], 0) + 1
+                    silent = f[0] == "QD" and f[7] == "1" and f[8] == "1"      # passive no-wait declare: no reply, no effect
+                    if not closes and not silent:
+                        viol.append({"step": i, "kind": "lock", "what": "`%s` names queue %s, exclusive to connection %d, through connection %d and was not refused (frames %s)" % (
+                            st["op"], qn, q["owner"], c, st["frames"])})
+                    elif exp == ("ch", 405):
+                        cls, mth = METH[f[0]]
+                        if not any(x[2] == "channel.close" and x[3][:3] == [405, cls, mth] and (x[0], x[1]) == (c, h) for x in closes):
+                            viol.append({"step": i, "kind": "lock-code", "what": "`%s` on foreign exclusive queue %s: expected channel.close(405,%d,%d), observed %s" % (st["op"], qn, cls, mth, closes)})
+                    if entity_lines(st["snap"], (c, h)) != entity_lines(prev["raw"], (c, h)) and not silent:
+                        d = [(a, b) for a, b in zip(entity_lines(prev["raw"], (c, h)), entity_lines(st["snap"], (c, h))) if a != b]
+                        viol.append({"step": i, "kind": "lock-effect", "what": "refused `%s` on foreign exclusive queue %s changed the broker state: %s" % (st["op"], qn, d[:2])})
+                elif q["excl"]:
+                    stats["owner_ops_on_exclusive"] = stats.get("owner_ops_on_exclusive", 0) + 1
+                    if any(x[3][0] == 405 for x in closes):
+                        viol.append({"step": i, "kind": "owner-locked-out", "what": "the owner's `%s` on its exclusive queue %s was refused with RESOURCE_LOCKED" % (st["op"], qn)})
+                if f[0] == "CONS" and not foreign and q["consumers"] and (q["cexcl"] or f[6] == "1"):
+                    stats["exclusive_consume_conflicts"] = stats.get("exclusive_consume_conflicts", 0) + 1
+                    dup = any(cm["tag"] == de(f[4]) for cm in pch["consumers"])
+                    if not dup and not any(x[2] == "channel.close" and x[3][:3] == [403, 60, 20] for x in closes):
+                        viol.append({"step": i, "kind": "exclusive-consumer", "what": "`%s`: queue %s has consumers %s (exclusive consumer: %s) - expected ACCESS_REFUSED, observed %s" % (
+                            st["op"], qn, q["consumers"], q["cexcl"], closes or st["frames"])})
+            # isolation: every other queue keeps its waiting and unsettled messages
+            for on, oq in prev["queues"].items():
+                if on == qn or on not in cur["queues"]:
+                    if on != qn and on not in cur["queues"] and not (f[0] == "QDEL"):
+                        pass
+                    continue
+                stats["other_queues_compared"] = stats.get("other_queues_compared", 0) + 1
+                if cur["queues"][on]["ready"] != oq["ready"]:
+                    viol.append({"step": i, "kind": "isolation", "what": "`%s` is addressed to queue %s but the waiting messages of queue %s changed: %s -> %s" % (
+                        st["op"], qn, on, oq["ready"], cur["queues"][on]["ready"])})
+            pun = sorted((k, u["tag"], u["uid"]) for k, ch in prev["chans"].items() for u in ch["unacked"] if u["queue"] != qn and k in cur["chans"] and not (k == (c, h) and closes))
+            cun = sorted((k, u["tag"], u["uid"]) for k, ch in cur["chans"].items() for u in ch["unacked"] if u["queue"] != qn and not (k == (c, h) and closes))
+            if pun != cun and not any(x[2] == "connection.close" for x in closes):
+                viol.append({"step": i, "kind": "isolation", "what": "`%s` is addressed to queue %s but unsettled deliveries of other queues changed: %s -> %s" % (st["op"], qn, pun, cun)})
+        prev = cur
+    return viol
